@@ -509,7 +509,7 @@ def run_key(kc, col, tally, only=None):
 # ------------------------------------------------------------------ plan / shards / replay
 def plan(tier, seed, scale=1.0):
     nshard = 16
-    per = int((1500 if tier == 'thorough' else 48) * scale)
+    per = int((1100 if tier == 'thorough' else 36) * scale)
     return [{'shard': i, 'nshard': nshard, 'n_keys': max(4, per), 'n_bip38': max(1, int((40 if tier == 'thorough' else 2) * scale))}
             for i in range(nshard)]
 
